@@ -6,7 +6,29 @@ import shutil
 import gen
 
 
+def register_collisions():
+    """no generated schedule family may use one driver register from two threads (a thread overwriting another one's
+    guard would look like a defect of the crate): checked over all systematic jobs of both tiers"""
+    bad = {}
+    for tier in ("quick", "thorough"):
+        for j in gen.sandwich(tier):
+            regs = {}
+            for t, ops in enumerate(j["prog"]["threads"]):
+                for o in ops:
+                    if o.get("op") == "pad":
+                        continue
+                    for k in ("g", "h", "p", "x"):
+                        if isinstance(o.get(k), int):
+                            if regs.setdefault((k, o[k]), t) != t:
+                                bad[j["fam"]] = (k, o[k])
+    return bad
+
+
 def run(P):
+    bad = register_collisions()
+    if bad:
+        print("selftest: schedule families share registers between threads:", bad)
+        return 2
     wd = os.path.join(P.CACHE, "selftest_%d" % os.getpid())
     os.makedirs(wd, exist_ok=True)
     try:
